@@ -332,7 +332,14 @@ func verifStub_SPSFPS(s h264.SPS) float64                  { return 30 }
 // ---- parameter-set parsers used by codecparams.Marshal for H265 / AV1 (C09 lemma): accepted, zero fields ----
 
 func verifStub_H265SPSUnmarshal(s *h265.SPS, buf []byte) error         { return nil }
+// verifAV1Fields: when set (lemma.codecs.av1), the symbolic parse result of the next sequence header
+var verifAV1Fields *av1.SequenceHeader
+
 func verifStub_AV1SeqUnmarshal(s *av1.SequenceHeader, buf []byte) error {
+	if verifAV1Fields != nil {
+		*s = *verifAV1Fields
+		return nil
+	}
 	s.SeqLevelIdx = []uint8{8}
 	s.SeqTier = []bool{false}
 	s.ColorConfig.BitDepth = 8
